@@ -21,7 +21,7 @@ pub fn diff(t: Sym, v: Sym) -> Sym {
                     Sym::int(0)
                 }
             }
-            Node::Const(_) => Sym::int(0),
+            Node::Const(_) | Node::FConst(_) => Sym::int(0),
             Node::Neg(a) => -go(Sym(a), v, memo),
             Node::Bin(op, a, b) => {
                 let (a, b) = (Sym(a), Sym(b));
@@ -56,7 +56,7 @@ pub fn subst_many(t: Sym, map: &[(Sym, Sym)]) -> Sym {
             return *r;
         }
         let r = match node(t) {
-            Node::Var(_) | Node::Const(_) => t,
+            Node::Var(_) | Node::Const(_) | Node::FConst(_) => t,
             Node::Neg(a) => -go(Sym(a), map, memo),
             Node::Bin(op, a, b) => {
                 let (a, b) = (go(Sym(a), map, memo), go(Sym(b), map, memo));
@@ -83,7 +83,7 @@ pub fn rename(t: Sym, suffix: &str, shared: &dyn Fn(&str) -> bool) -> Sym {
                     Sym::var(&format!("{nm}{suffix}"))
                 }
             }
-            Node::Const(_) => t,
+            Node::Const(_) | Node::FConst(_) => t,
             Node::Neg(a) => -go(Sym(a), suffix, shared, memo),
             Node::Bin(op, a, b) => {
                 let (a, b) = (go(Sym(a), suffix, shared, memo), go(Sym(b), suffix, shared, memo));
@@ -117,7 +117,7 @@ pub fn vars_of(t: Sym) -> Vec<String> {
             Node::Var(i) => {
                 out.insert(with_ctx(|c| c.var_names[i as usize].clone()));
             }
-            Node::Const(_) => {}
+            Node::Const(_) | Node::FConst(_) => {}
             Node::Neg(a) => stack.push(a),
             Node::Bin(_, a, b) => {
                 stack.push(a);
@@ -137,7 +137,7 @@ pub fn op_census(t: Sym) -> Vec<(String, usize)> {
             continue;
         }
         match with_ctx(|c| c.node(n).clone()) {
-            Node::Var(_) | Node::Const(_) => {}
+            Node::Var(_) | Node::Const(_) | Node::FConst(_) => {}
             Node::Neg(a) => {
                 *cnt.entry("neg".into()).or_default() += 1;
                 stack.push(a)
